@@ -78,7 +78,7 @@ def has_quantifier(t: Any, _seen: set[int] | None = None) -> bool:
 class Exec:
     """One execution (= one path).  Also the contract-facing API object ``S``."""
 
-    FEAS_TIMEOUT_MS = 3000
+    FEAS_TIMEOUT_MS = 1000
 
     def __init__(self, explorer: "Explorer", prefix: tuple[int, ...], path_id: int) -> None:
         self.explorer = explorer
@@ -105,6 +105,9 @@ class Exec:
         self.notes: list[str] = []
         self.interp: Any = None
         self.cur_site = ""
+        from . import regex
+
+        regex.install(self.handlers)
 
     # ---- naming -------------------------------------------------------------------
     def fresh_name(self, base: str) -> str:
